@@ -40,6 +40,10 @@ class Session:
     def call(self, op, **kw):
         m = dict(kw)
         m["op"] = op
+        extra = getattr(self, "extra", None)
+        if extra:
+            m.update(extra)
+            self.extra = None
         if "mid" not in m:
             self.n += 1
             m["mid"] = self.n
@@ -222,6 +226,8 @@ class History:
                     v["after_reopen"] = True
                     return v
                 continue
+            if "apply_storm" in op:
+                s.extra = {"apply_storm": op["apply_storm"], "apply_k": op.get("apply_k", 0)}
             if name == "append":
                 r = s.call("append" if op["len"] != BLANK else "blank", index=op["index"], term=op["term"], uid=op.get("uid", 0), len=op["len"])
                 if r.get("ok"):
@@ -418,6 +424,9 @@ class Gen:
             if r.random() < 0.5:
                 self.term += 1
         self.ops.append({"op": "delete_from", "k": k})
+        if self.r.random() < 0.3:
+            # a busy node applies entries while the conflict is resolved (the apply position is below every cut)
+            self.ops[-1].update({"apply_storm": self.r.choice([10, 60]), "apply_k": 0})
 
     def op_pointer(self):
         if self.last < 3 or self.max_ptr + 1 >= self.last:
@@ -428,6 +437,8 @@ class Gen:
         self.snap += 1
         self.max_ptr = idx
         self.ops.append({"op": "pointer_build", "index": idx, "term": self.term, "snap_id": self.snap})
+        if self.r.random() < 0.3:
+            self.ops[-1].update({"apply_storm": self.r.choice([10, 60]), "apply_k": 0})
         self.features.add("pointer")
 
     def op_read(self):
